@@ -999,7 +999,7 @@ def make_sw_oracle(follow):
     return sw_oracle
 
 
-ASAN_FLAGS = ['-O1', '-fsanitize=address', '-fno-omit-frame-pointer']
+ASAN_FLAGS = ['-O0', '-fsanitize=address', '-fno-omit-frame-pointer']   # -O0: at -O1 gcc 12 drops the check of the second byte read (seen with mutation m11)
 ASAN_ENV = {'ASAN_OPTIONS': 'detect_leaks=0:abort_on_error=0:exitcode=66'}
 
 
